@@ -85,6 +85,28 @@ Theorem C17_prefix_section_header_absent_or_identical :
 Proof. exact prefix_section_header_absent_or_identical. Qed.
 Print Assumptions C17_prefix_section_header_absent_or_identical.
 
+(* the program header table: an entry that is not completely inside the stream leaves the stream failed (whatever
+   was read of it is not reported as a segment: see the next theorem) ... *)
+Theorem C17_cut_program_header_entry_fails_the_stream :
+  forall st enc c (pos : N) lazy st1 g1 ok al,
+    is_fail st = false -> st_inv st -> pos < 2 ^ 63 -> lenN (is_content st) < pos + phdr_size c ->
+    segment_load st [] enc (new_segment c) (Z.of_N pos) lazy = Ok (st1, g1, ok, al) -> is_fail st1 = true.
+Proof. exact (segment_load_cut_entry_fails (fun _ => 0)). Qed.
+Print Assumptions C17_cut_program_header_entry_fails_the_stream.
+
+(* ... and the loop over the table stops at that entry with "not good" - load() returns false - and the list of
+   segments is what it was before the entry: no segment with partly read fields is ever reported *)
+Theorem C17_cut_program_header_entry_fails_the_load :
+  forall f st secs enc c offset entsize i num lazy racc allocs,
+    is_fail st = false -> st_inv st -> i < num ->
+    table_pos offset i entsize = Z.of_N (Z.to_N (table_pos offset i entsize)) ->
+    Z.to_N (table_pos offset i entsize) < 2 ^ 63 ->
+    lenN (is_content st) < Z.to_N (table_pos offset i entsize) + phdr_size c ->
+    forall r, load_segments_loop (S f) st [] secs enc c offset entsize i num lazy racc allocs = Ok r ->
+    snd (fst r) = false /\ snd (fst (fst r)) = racc.
+Proof. exact (load_segments_cut_entry_fails (fun _ => 0)). Qed.
+Print Assumptions C17_cut_program_header_entry_fails_the_load.
+
 (* ... and an input without a decodable header is refused, whatever else it holds *)
 Theorem C17_no_header_no_load :
   forall junk el k content lazy,
